@@ -7,6 +7,7 @@ from .. import scenario
 ID = "C04"
 LEVEL = "exploration"
 RULE = ("five case families: (0) SIZE boundaries of the file format - string literals of 250 ... 70 000 bytes around every power of two, functions capturing up to 300 variables, files with up to 1 200 functions, names of 1 000 characters, class and method names (function labels) of up to 300 characters, jumps over 12 000 statements, literals with 1 000 elements, 250 parameters - each with a computed expected output; (0b) REPEATED LABELS - same-named classes in two function bodies, in the if and the else block, at module level and inside a function, same-named inner functions and methods, with the first, the second or both in use (differential only); (1) every .ms file of the repository's example corpus as entry point of a copy of its directory; "
+        "(1b) a RECOMPILE family: the same programs compiled into a directory that already holds the bytecode of an earlier, longer program under the same file name (the edit / recompile cycle); "
         "(2) programs from the generators of C01, C07, C08, C12, C13, C15 and the two-module failing programs of C17 "
         "(Hypothesis); (3) 80 string VALUES that read like tokens of another lexical class (numbers in every spelling, booleans, keywords, instruction / register / label names, paths, comment openers); every ASCII character (0-127) and seven further code points alone, doubled, embedded and next to a quote / backslash / space; EXHAUSTIVELY all string literals up to length 3 (quick: + a seeded sample of length 4; thorough: all "
         "of length 4) over the alphabet {quote, backslash, space, TAB, LF, CR, n, r, t, a, e-acute, emoji, NBSP, U+3000, VT, NUL} in escaped and raw "
@@ -74,10 +75,10 @@ def a_equiv(a, res, ctx):
     return out or None
 
 
-def make_scenario(files, entry="main.ms", expect=None, loose=False):
+def make_scenario(files, entry="main.ms", expect=None, loose=False, before=None):
     base = entry[:-3]
     return {"files": {"p/q/r/" + k: v for k, v in files.items()}, "cwd": "p/q/r",
-            "steps": [{"id": "run", "argv": ["mscript", "run", entry, "-q"]},
+            "steps": (before or []) + [{"id": "run", "argv": ["mscript", "run", entry, "-q"]},
                       {"id": "compile", "argv": ["mscript", "compile", entry, "--quick"]},
                       {"id": "execute", "argv": ["mscript", "execute", base + ".mmm"], "only_if_ok": "compile"}],
             "asserts": [{"kind": "c04_equiv", "expect_stdout": expect, "loose": loose}]}
@@ -134,7 +135,12 @@ def check(case):
                 r.failure = first_known
         return r
     files, entry = case["files"], case.get("entry", "main.ms")
-    sc = make_scenario(files, entry, expect=case.get("expect"), loose=(fam == "corpus"))
+    before = None
+    if fam == "recompile":
+        # the directory already holds the bytecode of ANOTHER, longer program under the same name: `earlier.ms` was compiled as main.ms
+        before = [{"id": "mv1", "op": "rename", "src": "earlier.ms", "dst": "main.ms"}, {"id": "c1", "argv": ["mscript", "compile", "main.ms", "--quick"]},
+                  {"id": "mv2", "op": "rename", "src": "main.ms", "dst": "earlier.ms"}, {"id": "mv3", "op": "rename", "src": "later.ms", "dst": "main.ms"}]
+    sc = make_scenario(files, entry, expect=case.get("expect"), loose=(fam == "corpus"), before=before)
     res, fails, _ = scenario.execute(sc)
     text = "".join(v for v in files.values() if isinstance(v, str))
     nt = special(text) or len([f for f in files if f.endswith(".ms")]) > 1 or fam == "labels"
@@ -313,8 +319,23 @@ def label_cases():
     return out
 
 
+def recompile_cases():
+    """the edit / recompile cycle: `compile` writes main.mmm over the output of an earlier, LONGER program of the same name;
+    what `execute` then runs must be the new program and nothing else"""
+    sizes = {c["origin"]: c for c in size_cases()}
+    earlier = [sizes["size:functions-130"]["files"]["main.ms"] + "print \"earlier program\"\n", sizes["size:string-4096"]["files"]["main.ms"],
+               "".join("print \"old line %d\"\n" % i for i in range(40))]
+    later = [c for c in label_cases()[::6]] + [sizes[k] for k in ("size:string-250", "size:functions-20", "size:captures-8", "size:parameters-5", "size:literal-10-elements")]
+    later.append({"origin": "tiny", "files": {"main.ms": "print \"new\"\n"}, "expect": "new\n"})
+    out = []
+    for i, e in enumerate(earlier):
+        for c in later:
+            out.append({"family": "recompile", "origin": "recompile:%s-over-earlier-%d" % (c["origin"], i), "files": {"earlier.ms": e, "later.ms": c["files"]["main.ms"]}, "expect": c["expect"]})
+    return out
+
+
 def enumerated(tier, seed):
-    return corpus_cases() + size_cases() + label_cases() + string_cases(tier, seed)
+    return corpus_cases() + size_cases() + label_cases() + recompile_cases() + string_cases(tier, seed)
 
 
 def strategy(tier):
